@@ -216,6 +216,9 @@ fn main() {
             let mut shim_ok = true;
             let nops = if grow { 80 + rng.below(121) } else { 20 + rng.below(181) };
             for _ in 0..nops {
+                // any public entry point for the call (see builder::Drive)
+                let route = rng.next() as u32;
+                d.set_route(route);
                 let sec = d.section();
                 // runs that are meant to grow rewind less often
                 let roll = if grow && rng.chance(2, 3) { 28 + rng.below(72) } else { rng.below(100) };
@@ -293,6 +296,7 @@ fn main() {
                     }
                     None => len,
                 };
+                ev["route"] = json!(route % 1000);
                 ev["len"] = json!(len);
                 ev["cnt"] = json!(d.counts());
                 ev["shim"] = json!(shim);
